@@ -331,12 +331,16 @@ FinalRules(s, e) ==
           T   == s.texts
           Cnt(line) == Cardinality({i \in DOMAIN T : T[i].line = line})
           okw == {i \in DOMAIN W : W[i].ok}
-          lost == {i \in okw : Cnt(W[i].line) = 0}
-          dup  == {i \in DOMAIN W : Cnt(W[i].line) > 1}
-          ghost == {i \in DOMAIN W : ~W[i].ok /\ ~W[i].part /\ W[i].ret # 0 /\ Cnt(W[i].line) > 0}
+          \* the same line may be written several times: it is in the output as often as it was written
+          Oks(line)   == Cardinality({i \in okw : W[i].line = line})
+          Maybe(line) == Cardinality({i \in DOMAIN W : W[i].line = line /\ (W[i].ok \/ W[i].part \/ W[i].ret = 0)})
+          lost == {i \in okw : Cnt(W[i].line) < Oks(W[i].line)}
+          dup  == {i \in DOMAIN W : Cnt(W[i].line) > Maybe(W[i].line) /\ Maybe(W[i].line) > 0}
+          ghost == {i \in DOMAIN W : ~W[i].ok /\ ~W[i].part /\ W[i].ret # 0 /\ Maybe(W[i].line) = 0 /\ Cnt(W[i].line) > 0}
           Pos(i) == CHOOSE j \in DOMAIN T : T[j].line = W[i].line
+          Once(i) == Cnt(W[i].line) = 1 /\ Cardinality({j \in DOMAIN W : W[j].line = W[i].line}) = 1
           swapped == {p \in okw \X okw : /\ W[p[1]].ret < W[p[2]].inv
-                                        /\ Cnt(W[p[1]].line) = 1 /\ Cnt(W[p[2]].line) = 1
+                                        /\ Once(p[1]) /\ Once(p[2])
                                         /\ Pos(p[1]) > Pos(p[2])}
       IN (IF lost # {} /\ NormalEnd(s) /\ s.cfg.refresh = "auto" /\ s.renderStarted
           THEN <<B("C13", "text-lost", e, ToString({W[i].line : i \in lost}))>> ELSE <<>>)
@@ -455,9 +459,9 @@ Step(s, e) ==
          [s EXCEPT !.waitAt = IF @ = 0 THEN e.seq ELSE @, !.doneAt = IF @ = 0 THEN e.seq ELSE @]
     [] e.ev = "ret" /\ e.op = "shutdown" -> [s EXCEPT !.doneAt = IF @ = 0 THEN e.seq ELSE @]
     [] e.ev = "inv" /\ e.op = "write" ->
-         [s EXCEPT !.writes = Append(@, [line |-> e.line, inv |-> e.seq, ret |-> 0, ok |-> FALSE, part |-> FALSE, c |-> e.c])]
+         [s EXCEPT !.writes = Append(@, [line |-> e.line, inv |-> e.seq, ret |-> 0, ok |-> FALSE, part |-> FALSE, c |-> e.c, i |-> e.i])]
     [] e.ev = "ret" /\ e.op = "write" ->
-         LET i == CHOOSE i \in DOMAIN s.writes : s.writes[i].line = e.line IN
+         LET i == CHOOSE i \in DOMAIN s.writes : s.writes[i].c = e.c /\ s.writes[i].i = e.i IN
          [s EXCEPT !.writes[i].ret = e.seq, !.writes[i].ok = (e.err = "" /\ e.full),
                    !.writes[i].part = e.partial, !.wpartial = @ \/ e.partial]
     [] e.ev = "ret" /\ e.op = "get" ->
@@ -523,7 +527,7 @@ Check(s, e) ==
          IF s.waitAt # 0 /\ s.bars[e.b].inv > s.waitAt /\ e.err # "ErrDone"
          THEN <<B("C02", "late-add", e, e.err)>> ELSE <<>>
     [] e.ev = "ret" /\ e.op = "write" ->
-         LET i == CHOOSE i \in DOMAIN s.writes : s.writes[i].line = e.line IN
+         LET i == CHOOSE i \in DOMAIN s.writes : s.writes[i].c = e.c /\ s.writes[i].i = e.i IN
          (IF s.waitAt # 0 /\ s.writes[i].inv > s.waitAt /\ (e.err # "ErrDone" \/ e.wn # 0)
           THEN <<B("C13", "late-write", e, e.err)>> ELSE <<>>)
          \o (IF e.err = "" /\ ~e.full THEN <<B("C13", "short-write", e, e.line)>> ELSE <<>>)
@@ -533,6 +537,8 @@ Check(s, e) ==
     [] e.ev = "tickfwd" ->
          IF ~s.fault /\ s.nreq + 1 - s.ncyc > 2
          THEN <<B("C05,C01", "render-request-ignored", e, ToString(<<s.nreq + 1, s.ncyc>>))>> ELSE <<>>
+    \* C10: a decorator's EwmaUpdate is joined before the bar's goroutine goes on: it never overlaps Decor
+    [] e.ev = "overlap" -> <<B("C10", "ewma-update-not-joined", e, e.d)>>
     [] e.ev = "onshutdown" ->
          \* C14: listeners are notified before Wait returns
          IF s.waitAt # 0 THEN <<B("C14", "listener-after-wait", e, e.d)>> ELSE <<>>
@@ -566,7 +572,7 @@ NarrowRules == {"hang", "hang/detached-push", "hang/orphaned-successor", "hang/r
                 "debug-lines", "spurious-debug", "running-after-done", "not-exactly-one-terminal-state",
                 "completed-and-aborted", "completed-unstable", "aborted-unstable", "late-add", "late-write",
                 "short-write", "final-values-changed", "data-race", "ewma-samples-differ-between-decorators",
-                "refill-exceeds-counter", "render-request-ignored"}
+                "refill-exceeds-counter", "render-request-ignored", "ewma-update-not-joined"}
 (* With a render delay the frames drawn before the delay ends are discarded together with the text they carry: which
    bars have already left, and which lines were lost, cannot be told from the output. *)
 DelayBlind == {"missing", "missing/detached-push", "never-shown", "never-shown/detached-push", "last-frame-missing",
